@@ -87,6 +87,26 @@ pub fn eval(j: &Job) -> Result<&'static str, (String, String)> {
         Expect::Invalid if valid => return v("nonconforming-flagged-valid", format!("payload [{payload}] does not conform to the definition under any reading but ifdata_valid is true")),
         _ => {}
     }
+    // conforming content is conforming in strict mode as well (there a diagnostic is an error for the attempt), and gives no
+    // diagnostic in either mode
+    if j.expect == Expect::Valid {
+        // (with char[n] members the non-strict reader tries an identifier as a string and logs that: documented leniency)
+        if let Some(e) = _log.first().filter(|_| !j.has_str) {
+            return v("conforming-content-diagnosed", format!("payload [{payload}] conforms to the definition, non-strict loading reports: {e}"));
+        }
+        match load(&text, spec, true) {
+            Loaded::Ok(fs, ls) => {
+                if !fs.project.module[0].if_data.first().map(|i| i.ifdata_valid).unwrap_or(false) {
+                    return v("conforming-flagged-invalid", format!("payload [{payload}] conforms to the definition but ifdata_valid is false in strict mode"));
+                }
+                if let Some(e) = ls.first() {
+                    return v("conforming-content-diagnosed", format!("payload [{payload}] conforms to the definition, strict loading reports: {e}"));
+                }
+            }
+            Loaded::Err(e) => return v("load-fails", format!("conforming payload [{payload}] makes strict loading fail: {e}")),
+            Loaded::Panic(p) => return v("panic", p),
+        }
+    }
     // values survive load and write
     let t1 = write(&f).map_err(|p| ("panic".to_string(), p))?;
     let pl = payloads_of(&t1).map_err(|e| ("output-invalid".to_string(), e))?;
